@@ -5,6 +5,10 @@ Deciding obligations:
     syntactically identical — `prog_eqb A B = true`, hence equal for ALL states (C08_identical_programs_agree);
   * closed-form association vs iterative solver: AssocC08.v proves the closed forms solve the site-balance equations (all
     strengths and densities), in (0,1], unique for the self-associating case;
+  * every other pair is first given to the verified AC-canonicaliser (coq/theories/Canon.v, C08_canonical_programs_agree): the
+    outputs (contributions) it identifies are equal for ALL states by theorem — on this tree the hard-sphere and hard-chain
+    contributions of ePC-SAFT without ions vs PC-SAFT (EXPECT_CANON; losing one is a violation); the remaining code paths differ by
+    more than associativity/commutativity (distributed sums, constants folded in f64) and stay a labelled test;
   * every other pair (functional vs equation of state, ePC-SAFT without ions vs PC-SAFT, SAFT-VRQ Mie FH0 vs SAFT-VR Mie):
     LABELLED TEST, not a theorem for all states — value and all first derivatives of both regenerated programs are enclosed
     by the verified multi-precision evaluator at sampled states; the enclosures must agree within the pair's tolerance
@@ -26,11 +30,15 @@ TOL = {
     "association_closed_form_vs_iterative_csite": 1e-7,
 }
 F64_RTOL = 1e-5
+# outputs that the canonicaliser must prove equal for all states
+EXPECT_CANON = {"epcsaft_noions_vs_pcsaft_alkanes": ["Hard Sphere", "Hard Chain"],
+                "epcsaft_noions_vs_pcsaft_water": ["Hard Sphere", "Hard Chain"]}
 # pairs covered by an open known finding (keyed by the finding's "needs" text): exactly these pair names
 KNOWN_PAIRS = {
     "a pure substance with both a dipole and a quadrupole moment": (
         "pcsaft_functional_wb_vs_eos_pure_dipole_quadrupole_one_molecule",
         "pcsaft_functional_aswb_vs_eos_pure_dipole_quadrupole_one_molecule"),
+    "a mixture of two quadrupolar components with different sigma": ("pcsaft_functional_wb_vs_eos_quadrupolar_mixture",),
 }
 
 
@@ -62,6 +70,7 @@ def run(ctx):
     worst = {}
     samples = []
     identical = 0
+    canon_rows = {}
     for p in impl["pairs"]:
         name = p["name"]
         r = res[os.path.join(ctx.gen, name + ".v")]
@@ -88,6 +97,21 @@ def run(ctx):
             V.violation(ctx, "coqc failed for %s" % name, {"broken": "gen/C08/%s.v" % name, "coq_error": V.coq_error(r["out"])},
                         found_input=False)
             continue
+        canon_lost = []
+        if p.get("canon_outputs"):
+            flags = by_prog(tags, "CANON").get("P")
+            names = p["canon_outputs"]
+            row = dict(zip(names, flags)) if isinstance(flags, list) and len(flags) == len(names) else {}
+            proved = [n for n in names if row.get(n) is True]
+            if proved or name in EXPECT_CANON:
+                canon_rows[name] = {"proved_equal_for_all_states": proved,
+                                    "not_decided_by_the_canonicaliser": [n for n in names if row.get(n) is not True]}
+            for n in EXPECT_CANON.get(name, []):
+                obligations += 1
+                if n in proved:
+                    discharged += 1
+                else:
+                    canon_lost.append(n)
         ea0, eb0 = by_prog(tags, "EA0").get("P"), by_prog(tags, "EB0").get("P")
         ea1, eb1 = by_prog(tags, "EA1").get("P"), by_prog(tags, "EB1").get("P")
         bad = []
@@ -126,6 +150,11 @@ def run(ctx):
         elif f64_fail:
             V.violation(ctx, "%s: the two implementations differ in plain f64 at %s" % (name, f64_fail[0]["state"]),
                         {"broken": "oracle", "pair": name, "failing": f64_fail}, found_input=True)
+        elif canon_lost:
+            V.violation(ctx, "%s: contributions %s of the two regenerated programs are no longer equal modulo associativity/"
+                        "commutativity; no differing state found among the sampled ones" % (name, canon_lost),
+                        {"broken": "gen/C08/%s.v: pair_agree (C08_canonical_programs_agree) for %s" % (name, canon_lost),
+                         "canon": canon_rows.get(name)}, found_input=False)
         if len(samples) < 5:
             samples.append({"pair": name, "instructions": [p["ninstr_a"], p["ninstr_b"]], "syntactically_identical": same,
                             "state_TVN": p["states"][0] if p["states"] else None,
@@ -137,6 +166,7 @@ def run(ctx):
                                              "the list of pairs and how each member is constructed (harness/src/bin/c08.rs)"],
         "programs": 2 * len(impl["pairs"]), "pairs": len(impl["pairs"]), "pairs_proved_identical": identical,
         "pairs_compared_by_enclosures_(labelled_test)": len(impl["pairs"]) - identical,
+        "contributions_proved_equal_for_all_states_by_canonicaliser": canon_rows,
         "disagreements_checked": n_cmp,
         "worst_relative_difference_per_pair": worst,
         "library_theorems": lib["obligations"], "library_files": lib["library_files"], "axioms_reported": lib["axioms"],
